@@ -20,6 +20,8 @@ func c27DrawWidth(t *rapid.T) expr.Width {
 		return 255
 	case 1:
 		return 0
+	case 2:
+		return expr.Width(rapid.IntRange(0, 255).Draw(t, "wAny"))
 	default:
 		return expr.Width(rapid.IntRange(0, 16).Draw(t, "w"))
 	}
@@ -266,7 +268,7 @@ func propC27(t *rapid.T) {
 }
 
 func TestC27(t *testing.T) {
-	colC27 = ev.New("C27", "rapid: all 10 integer types x widths {0..16,255} x boundary-biased values (0, +-1, +-2^(8k), "+
+	colC27 = ev.New("C27", "rapid: all 10 integer types x widths {0..16,255} and a tenth anywhere in 0..255 x boundary-biased values (0, +-1, +-2^(8k), "+
 		"+-2^(8k)+-1, +-2^(8k-1), +-2^(8k-1)-1, all-ones, random); oracle = math/big range test and two's complement "+
 		"encoding; plus read-back ConstUint[T] of arbitrary byte strings and copy semantics of NewConst/WithWidth. "+
 		"non-trivial = width narrower than the type with a boundary value, read-back of a constant wider than T, or "+
